@@ -136,7 +136,11 @@ def drain_and_final(study, rec, n_queued):
     from optuna.trial import TrialState
 
     for _ in range(n_queued + 1):
-        n = rec.ask_run_tell(0, random.Random(0), names=["x"])
+        try:
+            n = rec.ask_run_tell(0, random.Random(0), names=["x"])
+        except Exception as e:  # the class is the observation: no action of the spec lets a drain step fail
+            rec.log({"e": "error", "w": 0, "err": type(e).__name__ + ":" + str(e)[:100]})
+            break
         if n is None:
             break
     waiting = sorted(t.number for t in study.get_trials(deepcopy=False, states=(TrialState.WAITING,)))
@@ -212,6 +216,8 @@ def concurrent_history(kind, seed, workdir, focus=None):
             rec0.enqueue(rng, "enqueue")
         queued = [n_pre]
         nw = rng.choice([2, 2, 3]) if focus is None else 2
+        if kind == "journal_forked":           # the parent prepared the study; its children inherit the storage object
+            storages = c03.fork_children(storages[0], sched)
 
         def mk(w, storage, enq_too):
             def body(worker):
@@ -234,12 +240,17 @@ def concurrent_history(kind, seed, workdir, focus=None):
         else:
             info = sched.run(c03.preempt_at(focus, first=1)(sched))
         ev += sched.log
-        obs_study = optuna.load_study(study_name="q", storage=observer if kind in ("rdb_conns",) else storages[0])
-        drain_and_final(obs_study, Recorder(obs_study, ev.append), queued[0])
+        try:
+            obs_study = optuna.load_study(study_name="q", storage=observer if kind in ("rdb_conns",) else storages[0])
+            drain_and_final(obs_study, Recorder(obs_study, ev.append), queued[0])
+        except Exception as e:  # a storage that cannot even be read after the run: an observation, judged by TLC
+            ev.append({"e": "error", "w": 0, "err": type(e).__name__ + ":" + str(e)[:100]})
         return {"config": kind, "ev": ev, "deadlock": int(info["deadlock"]), "lines": [w.lines for w in sched.workers],
                 "replay": {"family": "conc", "config": kind, "seed": seed, "focus": focus}}
     finally:
         close()
+        while c03._CLOSERS:
+            c03._CLOSERS.pop()()
 
 
 def _task(args):
@@ -303,13 +314,13 @@ def run(ctx):
         n = max(3, n_seq // 3) if c in sd.SLOW else n_seq
         seeds = [ctx.seed * 100000 + i for i in range(n)]
         tasks += [("seq", c, seeds[i::2]) for i in range(2)]
-    for kind in ("inmemory", "journal_threads", "journal_procs", "rdb_conns", "grpc_journal", "grpc_inmemory"):
+    for kind in ("inmemory", "journal_threads", "journal_procs", "journal_forked", "rdb_conns", "grpc_journal", "grpc_inmemory"):
         n = n_conc // 3 if kind in ("rdb_conns", "grpc_journal", "grpc_inmemory") else n_conc
         seeds = [ctx.seed * 100000 + 5000 + i for i in range(n)]
         tasks += [("conc", kind, seeds[i::4]) for i in range(4)]
     # focused family: single preemption of an asker at every (quick: every k-th) yield point while an enqueuer runs
     n_focus = 0
-    for kind in ("inmemory", "journal_threads"):
+    for kind in ("inmemory", "journal_threads", "journal_forked"):
         for variant in range(4):                     # queue empty / one trial x enqueuer asks or not
             seed = ctx.seed * 100000 + 9000 + variant
             dry = _task(("focus", kind, [(seed, 10 ** 9)]))[0]
